@@ -180,6 +180,8 @@ class FitsStream(Stream):
                     samples.append(s)
             v = rng.choice(samples) if samples and rng.random() < 0.9 else gen.word(rng)
             v = gen.mutate_str(rng, v, 'ab\n' + tags[0][0] + tags[1][0])
+            if rng.random() < 0.07:
+                v = rng.choice(els)           # the element's own text, delimiters included, offered as the value
             what = v if rng.random() < 0.97 else rng.choice([None, 5, ['a']])
             pol = {'uid': 1, 'effect': 'allow', 'subjects': [], 'resources': [],
                    'actions': [['s', e] for e in els], 'context': [], 'description': None, 'tags': list(tags)}
